@@ -19,7 +19,10 @@ POINT_SLOTS = ["G", "H", "P", "N", "A", "R"]
 
 
 def toy():
-    return catalog.first("h1", "n>p", min_n=19, max_n=31)
+    """n = 29 or 31: the lazily built table (powers of two up to >= 4n) then
+    has exactly ONE entry more than multipliers below 2n need, as on the
+    production curves - a table that loses an entry is noticed at once"""
+    return catalog.first("h1", "n>p", min_n=29, max_n=31)
 
 
 class Pool(object):
@@ -111,7 +114,7 @@ class Pool(object):
 
 def foreign_toy(t):
     for c in catalog.all_toys():
-        if c.h == 1 and c.p != t.p and 17 <= c.p <= 31 and c.n >= 11:
+        if c.h == 1 and c.p != t.p and 13 <= c.p <= 31 and c.n >= 11:
             return c
     raise LookupError("no foreign toy curve")
 
@@ -161,7 +164,7 @@ MULADD = [(3, 5), (1, 1), (2, -1), (5, 3), (0, 3), (3, 0)]
 def enabled_events(pool, menu):
     """events offered in this state (depends only on slot kinds)"""
     n = pool.t.n
-    ks = KS + [n - 1, n, n + 1]
+    ks = KS + [n - 1, n, n + 1, 2 * n - 1]
     ev = []
     kinds = {s: pool.kind(s) for s in POINT_SLOTS}
     for x in POINT_SLOTS:
@@ -378,9 +381,16 @@ def probe(pool):
             for z in POINT_SLOTS:
                 if (o[x] == o[y]) and (o[y] == o[z]) and not (o[x] == o[z]):
                     bad.append(("eq-transitive", x, y, z))
+    n = pool.t.n
     for s in POINT_SLOTS:
         if pool.aff(o[s] * 3) != pool.vmul(3, v[s]):
             bad.append(("mul3", s, pool.aff(o[s] * 3), pool.vmul(3, v[s])))
+        # multipliers close to the order and to twice the order use every
+        # entry of a multiplication table
+        for k in (n - 1, 2 * n - 1, n + 2):
+            if pool.aff(o[s] * k) != pool.vmul(k, v[s]):
+                bad.append(("mul-large", s, k, pool.aff(o[s] * k),
+                            pool.vmul(k, v[s])))
         if pool.aff(o[s] + o["G"]) != pool.vadd(v[s], v["G"]):
             bad.append(("addG", s))
     if pool.aff(pool.F) != pool.Fval:
@@ -534,7 +544,7 @@ def main(ctx):
             if time.time() - t0 > budget:
                 capped = "time budget %ds at depth %d" % (budget, depth)
                 break
-            chunks = common.chunks(frontier, 4 * ctx.jobs)
+            chunks = common.chunks(frontier, ctx.jobs)
             results = pool.map(_expand_packed, [(trec, ch, menu)
                                                 for ch in chunks])
             new = []
@@ -550,7 +560,7 @@ def main(ctx):
                 capped = "state cap %d at depth %d" % (max_states, depth)
             # probe battery on every new state
             pres = pool.map(_probe_packed, [(trec, ch) for ch in
-                                            common.chunks(new, 4 * ctx.jobs)])
+                                            common.chunks(new, ctx.jobs)])
             for packed in pres:
                 rep.absorb("probe", packed)
             if new:
